@@ -178,9 +178,11 @@ class Type1FontHeaderParser(PSStackParser[int]):
 
     def do_keyword(self, pos: int, token: PSKeyword) -> None:
         if token is self.KEYWORD_PUT:
-            ((_, key), (_, value)) = self.pop(2)
-            if isinstance(key, int) and isinstance(value, PSLiteral):
-                self.add_results((key, literal_name(value)))
+            objs = self.pop(2)
+            if len(objs) == 2:
+                ((_, key), (_, value)) = objs
+                if isinstance(key, int) and isinstance(value, PSLiteral):
+                    self.add_results((key, literal_name(value)))
         elif token is self.KEYWORD_STANDARD_ENCODING:
             # "/Encoding StandardEncoding def"
             if self.curstack and self.curstack[-1][1] is self.LITERAL_ENCODING:
@@ -869,7 +871,8 @@ class TrueTypeFont:
                         for c in range(sc, ec + 1):
                             char2gid[c] = (c + idd) & 0xFFFF
             else:
-                assert False, str(("Unhandled", fmttype))
+                # formats 6, 12 ... are not supported: skip the subtable
+                continue
         if not char2gid:
             raise TrueTypeFont.CMapNotFound
         # create unicode map
@@ -1078,8 +1081,9 @@ class PDFType1Font(PDFSimpleFont):
         if "Encoding" not in spec and "FontFile" in descriptor:
             # try to recover the missing encoding info from the font file.
             self.fontfile = stream_value(descriptor.get("FontFile"))
-            length1 = int_value(self.fontfile["Length1"])
-            data = self.fontfile.get_data()[:length1]
+            data = self.fontfile.get_data()
+            if "Length1" in self.fontfile:
+                data = data[: int_value(self.fontfile["Length1"])]
             parser = Type1FontHeaderParser(BytesIO(data))
             self.cid2unicode = parser.get_encoding()
 
@@ -1170,7 +1174,7 @@ class PDFCIDFont(PDFFont):
                 CMapParser(self.unicode_map, BytesIO(strm.get_data())).run()
             else:
                 cmap_name = literal_name(spec["ToUnicode"])
-                encoding = literal_name(spec["Encoding"])
+                encoding = literal_name(spec.get("Encoding", LIT("unknown")))
                 if (
                     "Identity" in cid_ordering
                     or "Identity" in cmap_name
